@@ -790,11 +790,27 @@ def _member_loop(loop: ast.For, elem: str, where):
             and all(isinstance(x, (ast.Continue, ast.Pass)) or (isinstance(x, ast.Expr) and isinstance(x.value, ast.Constant)) for x in first.body) \
             and isinstance(first.test, ast.Compare) and mentions(first.test) \
             and ast.unparse(first.test.left if not isinstance(first.test.left, ast.Constant) else first.test.comparators[0]) in (key_var, f'{attr_var}.name'):
+        _no_other_skip(body[1:], loop)
         return key_var, attr_var, _key_filter(first.test, key_var, attr_var, first), body[1:]
     if len(body) == 1 and isinstance(first, ast.If) and not first.orelse and isinstance(first.test, ast.Compare) and mentions(first.test) \
             and ast.unparse(first.test.left if not isinstance(first.test.left, ast.Constant) else first.test.comparators[0]) in (key_var, f'{attr_var}.name'):
+        _no_other_skip(first.body, loop)
         return key_var, attr_var, _key_filter(first.test, key_var, attr_var, first, want_equal=False), first.body
+    _no_other_skip(body, loop)
     return key_var, attr_var, ('FNothing', None), body
+
+
+def _no_other_skip(stmts: list[ast.stmt], where) -> None:
+    """No `continue` / `break` of this loop outside the recognised skip test (a skip the model does not have)."""
+    def walk(n):
+        if isinstance(n, (ast.Continue, ast.Break)):
+            _fail('loop over the members: a `continue` / `break` that is not the recognised skip test', n)
+        if isinstance(n, (ast.For, ast.While, ast.FunctionDef, ast.Lambda)):
+            return
+        for ch in ast.iter_child_nodes(n):
+            walk(ch)
+    for st in stmts:
+        walk(st)
 
 
 def _attr_count(fn: ast.FunctionDef) -> dict:
@@ -976,6 +992,40 @@ def _parse_keys(tree: ast.Module) -> dict:
         _fail(f'Element.__init__: unrecognised initial member `{ast.unparse(v)}`', init)
     out['init_key'], out['init_name'] = st[0].value.keys[0].value, v.args[0].value
     return out
+
+
+# ------------------------------------------------------------------------------------------------ KV2 at the level of the dict
+def _kv2_members(tree: ast.Module) -> dict:
+    """_export_kv2: the skip test of its loop over the members and the name line; _parse_kv2_element: the test that sends a
+    record to the name setter."""
+    w = _func(tree, 'Element', '_export_kv2')
+    loops = [n for n in w.body if isinstance(n, ast.For) and ast.unparse(n.iter) in ('self.values()', 'self._members.values()', 'self.items()', 'self._members.items()')]
+    if len(loops) != 1:
+        _fail(f'_export_kv2: expected one loop over the members of self, found {len(loops)}', w)
+    skip = _member_loop(loops[0], 'self', loops[0])[2]
+    lines = [n for n in ast.walk(w) if isinstance(n, ast.Constant) and isinstance(n.value, bytes) and b'"name" "string"' in n.value]
+    if len(lines) != 1 or lines[0].value != b'%b"name" "string" "%b"\r\n':
+        _fail('_export_kv2: the line `"name" "string" "<Element.name>"` is not written exactly once', w)
+    r = _func(tree, 'Element', '_parse_kv2_element')
+    blocks = [n for n in ast.walk(r) if isinstance(n, ast.For) and isinstance(n.target, ast.Name) and ast.unparse(n.iter).startswith('tok.block(')]
+    if len(blocks) != 1:
+        _fail('_parse_kv2_element: expected one `for attr_name in tok.block(...)`', r)
+    nv = blocks[0].target.id
+    tests = [n for n in ast.walk(blocks[0]) if isinstance(n, ast.If)
+             and any(isinstance(x, ast.Assign) and ast.unparse(x.targets[0]) == 'elem.name' for x in n.body)]
+    if len(tests) != 1:
+        _fail('_parse_kv2_element: expected one branch that assigns elem.name', r)
+    tsrc = ast.unparse(tests[0].test)
+    if tsrc == f"{nv} == 'name'":
+        test = 'TExact'
+    elif tsrc == f"{nv}.casefold() == 'name'":
+        test = 'TFolded'
+    else:
+        _fail(f'_parse_kv2_element: unrecognised test in front of the name setter `{tsrc}`', tests[0])
+    setter = [x for x in tests[0].body if isinstance(x, ast.Assign) and ast.unparse(x.targets[0]) == 'elem.name']
+    if len(setter) != 1 or ast.unparse(setter[0].value) != 'tok.expect(Token.STRING)' or not isinstance(tests[0].body[-1], ast.Continue):
+        _fail('_parse_kv2_element: the name branch is not `elem.name = tok.expect(Token.STRING); continue`', tests[0])
+    return {'skip': skip, 'name_test': test, 'line': loops[0].lineno}
 
 
 # ------------------------------------------------------------------------------------------------ scalar codecs
@@ -1792,6 +1842,7 @@ def translate() -> tuple[str, dict]:
     cnt = _attr_count(_func(tree, 'Element', 'export_binary'))
     ngt = _name_getter(tree)
     pkeys = _parse_keys(tree)
+    kv2m = _kv2_members(tree)
     # scalar codecs
     _binconv_shapes(tree)
     tcodec = _time_codec(tree)
@@ -1823,7 +1874,7 @@ def translate() -> tuple[str, dict]:
                 attr_count={'len': cnt['count'].ln, 'has': cnt['count'].has, 'has_key': cnt['count'].has_key, 'const': cnt['count'].const,
                             'kept': cnt['count'].kept, 'kept_filter': cnt['count'].kept_filter, 'write_filter': cnt['write_filter'],
                             'collect_filter': cnt['collect_filter'], 'line': cnt['line'], 'name_getter': ngt},
-                parse_keys=pkeys,
+                parse_keys=pkeys, kv2_members=kv2m,
                 digests={f: ast_digest(_func(tree, 'Element', f)) for f in
                          ('parse_bin', 'export_binary', 'export_kv2', '_export_kv2', 'parse_kv2', '_parse_kv2_element')})
 
@@ -1838,7 +1889,7 @@ def translate() -> tuple[str, dict]:
     umfun = lambda d: ('fun m => match m with UAscii => ' + b(d['ascii']) + ' | UFormat => ' + b(d['format']) + ' | USilent => ' + b(d['silent']) + ' end')
     lines = [
         '(* GENERATED by translate/c14_dmx.py from /repo/src/srctools/dmx.py. Do not edit. *)',
-        'From Coq Require Import NArith ZArith List String.', 'From SV Require Import Num.Dec6 Fmt.DmxCodes Fmt.DmxBin Fmt.DmxMembers Fmt.DmxMembersParse Fmt.DmxKv1 Fmt.DmxKv1Sel Fmt.DmxScalar Fmt.DmxKv2 Fmt.DmxValText Fmt.DmxHeader.', 'Import ListNotations.',
+        'From Coq Require Import NArith ZArith List String.', 'From SV Require Import Num.Dec6 Fmt.DmxCodes Fmt.DmxBin Fmt.DmxMembers Fmt.DmxMembersParse Fmt.DmxMembersKv2 Fmt.DmxKv1 Fmt.DmxKv1Sel Fmt.DmxScalar Fmt.DmxKv2 Fmt.DmxValText Fmt.DmxHeader.', 'Import ListNotations.',
         'Open Scope N_scope.',
         'Definition gen_cfg : dmxcfg := {|',
         '  code_table := [' + '; '.join(f'({c}, {i})' for c, i, _ in table) + '];',
@@ -1910,6 +1961,9 @@ def translate() -> tuple[str, dict]:
         '(* the readers: under which key an attribute record is stored in the dict of the element; the member Element() starts with *)',
         f'Definition gen_parse : parsecfg := {{| pk_bin := {pkeys["bin"][0]}; pk_kv2_attr := {pkeys["kv2_attr"][0]}; pk_kv2_inline := {pkeys["kv2_inline"][0]}; '
         f'pk_init_key := {_coq_str(pkeys["init_key"])}; pk_init_name := {_coq_str(pkeys["init_name"])} |}}.',
+        '(* _export_kv2: the skip test of the loop over the members; _parse_kv2_element: the test in front of the name setter *)',
+        f'Definition gen_kv2_skip : mfilter := {mfilter(kv2m["skip"])}.',
+        f'Definition gen_kv2_name_test : nametest := {kv2m["name_test"]}.',
         '(* from_kv1: which name of a leaf (casefolded .name / case-preserved .real_name) the reserved-name test and the duplicate test read *)',
         f'Definition gen_kv1_reserved_sel : namesel := {kv1["reserved_sel"]}.',
         f'Definition gen_kv1_dup_sel : namesel := {kv1["dup_sel"]}.',
